@@ -229,9 +229,10 @@ def d2_d3(ctx, rep):
             # while len(S) != self.n_nodes with |S| = 1 initially; each iteration that appends also grows S by one
             t = lp.test
             sname = None
-            if isinstance(t, ast.Compare) and len(t.ops) == 1 and isinstance(t.ops[0], ast.NotEq) and isinstance(t.left, ast.Call) \
-                    and call_name(t.left) == 'len' and isinstance(t.left.args[0], ast.Name) and is_self_attr(t.comparators[0], fn.self_name, 'n_nodes'):
-                sname = t.left.args[0].id
+            if isinstance(t, ast.Compare) and len(t.ops) == 1 and isinstance(t.ops[0], (ast.NotEq, ast.Lt, ast.Gt)):
+                for a_, b_ in ((t.left, t.comparators[0]), (t.comparators[0], t.left)):
+                    if isinstance(a_, ast.Call) and call_name(a_) == 'len' and a_.args and isinstance(a_.args[0], ast.Name) and is_self_attr(b_, fn.self_name, 'n_nodes'):
+                        sname = a_.args[0].id
             init = single_def(fn.node, sname) if sname else None
             init_ok = isinstance(init, ast.Set) and len(init.elts) == 1
             adds = [c for c in ast.walk(lp) if isinstance(c, ast.Call) and call_name(c) == 'add' and isinstance(c.func.value, ast.Name) and c.func.value.id == sname]
